@@ -90,7 +90,7 @@ func crashChildBinary() (string, error) {
 		}
 		childPath = filepath.Join(dir, fmt.Sprintf("crashchild-%d", os.Getpid()))
 		cmd := exec.Command("go1.26.8", "build", "-tags", "verif", "-o", childPath, "./cmd/crashchild")
-		cmd.Dir = "/verif/harness"
+		cmd.Dir = harnessDir()
 		cmd.Env = append(os.Environ(), "GOFLAGS=-mod=mod", "GOPROXY=off", "GOSUMDB=off", "GOTOOLCHAIN=local")
 		if out, err := cmd.CombinedOutput(); err != nil {
 			childErr = fmt.Errorf("building crashchild: %v\n%s", err, out)
@@ -530,4 +530,13 @@ func TestC13Migration(t *testing.T) {
 			return map[string]interface{}{"kind": "migration", "from_version": version, "nodes": nNodes, "peer_sets": nPeers, "trials": nTrials, "nonces": nNonces}
 		})
 	})
+}
+
+// harnessDir is the module directory of this test binary's sources (the
+// driver runs the binary from a scratch directory).
+func harnessDir() string {
+	if d := os.Getenv("VERIF_HARNESS"); d != "" {
+		return d
+	}
+	return "/verif/harness"
 }
